@@ -281,6 +281,13 @@ def run_case(case, ctx):
             shutil.move(str(root / "LICENSES" / "shared"), str(outside))
             os.symlink(str(outside), root / "LICENSES" / "shared")
             res.cell("licenses:linked-directory")
+        if case["k"] % 6 == 5:
+            # a repository whose ignore rules happen to match some of the licence texts: a text in LICENSES/ counts, tracked or not
+            trees.git_init(root)
+            (root / ".gitignore").write_text("/LICENSES/deep/\n*.md\n")
+            trees.git(root, "add", "-A", check=False)
+            trees.git(root, "commit", "-q", "-m", "init", check=False)
+            res.cell("licenses:git-ignored-texts")
         cwd, gargs = trees.place_lint(rng_for(ctx.seed, "c06place", case["k"]), root)
         r = run_cli(["--no-multiprocessing"] + gargs + ["lint", "--json"], cwd=cwd)
         res.n = len(cells)
